@@ -67,8 +67,13 @@ def both(sig, r, beh):
 
 
 def check(tier, replay, prop="C03"):
+    rep = vlib.Report(prop, tier, "model_checking")
+    model_flow(prop, tier, replay, spec="Bulk.tla", mods="ops_bulk", trace=("Trace_Bulk.tla", "Trace_Bulk.cfg"), mc=[],
+               gens=[("bulk: datasets of 1.1-2.1 MB (fill-chunk loop), first write far from the front, fill on/off; plain, chunked, linked blocks of 64/4096 bytes written in one call", "Gen_Bulk.tla", "Gen_Bulk_sd.cfg", "cover", {})],
+               mutators={"BulkVS", "BulkSD", "BulkHL"}, rep=rep, finish=False, part="bulk", tv_quick=1000, drive_timeout=600,
+               assumptions=["bulk part (specs/Bulk.tla): parameter sets around the internal staging thresholds; values by formula, every cell read back is compared by the driver"])
     return model_flow(
-        prop, tier, replay, spec="SDArray.tla", mods="ops_h,ops_sd", trace=("Trace_SDArray.tla", "Trace_SDArray.cfg"),
+        prop, tier, replay, rep=rep, spec="SDArray.tla", mods="ops_h,ops_sd", trace=("Trace_SDArray.tla", "Trace_SDArray.cfg"),
         mc=[("MC_SDArray.tla", "MC_SDArray.cfg")],
         gens=[("one behaviour per transition: every (start,stride,count) incl. invalid, ranks 1-2, fixed and unlimited, int32", "Gen_SDArray.tla", "Gen_SDArray_cover.cfg", "cover", {"sample": 30000}),
               ("one behaviour per transition x 9 number types x 3 flavours", "Gen_SDArray.tla", "Gen_SDArray_types.cfg", "cover", {"sample": 20000}),
